@@ -62,6 +62,8 @@ spec fn raw_prefix(raw: Seq<LexToken>, src: Seq<char>, n: int) -> Seq<(u16, Seq<
 spec fn is_trivia_spec(k: SyntaxKind) -> bool {
     (SyntaxKind::WHITESPACE_FIRST as u16) <= (k as u16) <= (SyntaxKind::DOC_COMMENT_LAST as u16)
 }
+spec fn is_ws_spec(k: SyntaxKind) -> bool { (SyntaxKind::WHITESPACE_FIRST as u16) <= (k as u16) <= (SyntaxKind::WHITESPACE_LAST as u16) }
+spec fn is_doc_spec(k: SyntaxKind) -> bool { (SyntaxKind::DOC_COMMENT_FIRST as u16) <= (k as u16) <= (SyntaxKind::DOC_COMMENT_LAST as u16) }
 // number of non-trivia tokens among the first n raw tokens
 spec fn n_real(raw: Seq<LexToken>, n: int) -> int decreases n {
     if n <= 0 { 0 } else { n_real(raw, n - 1) + (if is_trivia_spec(raw[n - 1].kind) { 0int } else { 1int }) }
